@@ -118,6 +118,9 @@ def dds_hash(x: Any) -> PyHash:
             return _algo_str(repr(elt))
         if isinstance(elt, list):
             check_len(elt)
+            if not elt:
+                # "|".join([]) is "": without a marker the empty list hashes like the empty string
+                return _algo_str("__DDS_EMPTY_LIST__")
             return _algo_str(
                 "|".join([_dds_hash(y, idx) for (idx, y) in enumerate(elt)])
             )
@@ -126,6 +129,9 @@ def dds_hash(x: Any) -> PyHash:
             return _dds_hash(list(elt), None)
         if isinstance(elt, PurePosixPath):
             return _algo_str(str(elt))
+        if isinstance(elt, dict) and not elt:
+            # Same for the empty dictionary, which is neither "" nor the empty list
+            return _algo_str("__DDS_EMPTY_DICT__")
         if isinstance(elt, OrderedDict):
             check_len(elt)
             # Directly using the ordering of the items in the dictionary.
